@@ -16,7 +16,7 @@ Cases == JsonDeserialize(IOEnv.PV_CASES)
 
 VARIABLES sid, inv, pos, acts, akeys, dums, dkeys, kargs   \* InvokeBinding's (unused)
 VARIABLES cid, ph, k, j, nbad
-IB == INSTANCE InvokeBinding WITH Stride <- 1, Offset <- 0,
+IB == INSTANCE InvokeBinding WITH Api <- "lfric", Stride <- 1, Offset <- 0,
                                   AlgKey <- "canon", PsyKey <- "canon"
 
 tvars == <<cid, ph, k, j, nbad>>
@@ -45,7 +45,7 @@ NextArg(ka, k0, j0) ==
     ELSE IF j0 <= Len(ka[k0]) THEN <<k0, j0>>
     ELSE NextArg(ka, k0 + 1, 1)
 
-Head ==
+HeadStep ==
     /\ ph = "head"
     /\ LET bad == HeadFailures
            nx  == NextArg(C.kargs, 1, 1)
@@ -58,7 +58,7 @@ Head ==
              ELSE /\ ph' = "args" /\ k' = nx[1] /\ j' = nx[2]
     /\ UNCHANGED cid
 
-Arg ==
+ArgStep ==
     /\ ph = "args"
     /\ LET ka == C.kargs[k][j]
            v  == IF k > Len(C.orig) \/ j > Len(C.orig[k]) THEN "OrigMissing"
@@ -72,7 +72,7 @@ Arg ==
              ELSE /\ ph' = "args" /\ k' = nx[1] /\ j' = nx[2]
     /\ UNCHANGED cid
 
-Step == (Head \/ Arg) /\ UNCHANGED <<sid, inv, pos, acts, akeys, dums, dkeys, kargs>>
+Step == (HeadStep \/ ArgStep) /\ UNCHANGED <<sid, inv, pos, acts, akeys, dums, dkeys, kargs>>
 Spec == Init /\ [][Step]_<<tvars, sid, inv, pos, acts, akeys, dums, dkeys, kargs>>
 
 \* single-case replay configuration: the property as a TLC invariant
